@@ -315,6 +315,9 @@ def gen_multi(seed_i, mode, tier):
 def judge_multi(scn, log=None):
     try:
         solo, inter, stats = multi.run_pristine(scn)
+    except multi.ActorDidNotTerminate:
+        # not an isolation verdict (non-termination belongs to C07); counted, and the task gives up after two
+        return [], {"switches": 0, "points": [], "trace": [], "steps": 0, "timeout": True}
     except multi.SoloWriterFailed as ex:
         e = ex.args[0] if ex.args else ("?", "")
         return [{"oracle": "C06.control.writer_completes",
@@ -420,9 +423,14 @@ def run_task(task):
                 part["samples"].append(scn)
         else:
             mode = task["fam"]
+            if c.get("probe:actor_did_not_terminate", 0) >= 2:
+                c["probe:scenarios_skipped_after_repeated_nontermination"] += 1
+                continue
             scn = gen_multi(s, mode, task["tier"])
             log = EventLog(keep=(i < 8)) if mode == "op" else None
             fails, stats = judge_multi(scn, log=log)
+            if stats.get("timeout"):
+                c["probe:actor_did_not_terminate"] += 1
             part["evals"] += 1
             part["events"] += stats.get("ops", 0) + stats.get("switches", 0)
             part["steps"] += stats.get("steps", 0)
